@@ -485,8 +485,15 @@ func buildU(p *pipe, l *logger) core.ZodType[any] {
 			return customTrU(p.k, in), nil
 		})
 	}
-	src := buildU(p.a, l)
 	dst := buildU(p.b, l)
+	if p.mp && p.a.kind == "B" && p.a.vk == "i" {
+		// the integer type's own Pipe method (types/integer.go) instead of core.NewZodPipe
+		if p.a.ptr {
+			return buildIntOn(p.a, l, gozod.IntPtr(tyMsg(p.a.tag)), nil).Pipe(dst)
+		}
+		return buildIntOn(p.a, l, gozod.Int(tyMsg(p.a.tag)), nil).Pipe(dst)
+	}
+	src := buildU(p.a, l)
 	return core.NewZodPipe[any, any](src, dst, func(in any, pc *core.ParseContext) (any, error) {
 		return dst.Parse(in, pc)
 	})
@@ -502,6 +509,9 @@ func (p *pipe) tokensU() string {
 		return strings.Join(parts, " ")
 	case "T":
 		return fmt.Sprintf("T %d %d %s", p.id, p.k, p.a.tokensU())
+	}
+	if p.mp {
+		return "PM " + p.a.tokensU() + " " + p.b.tokensU()
 	}
 	return "P " + p.a.tokensU() + " " + p.b.tokensU()
 }
@@ -538,6 +548,9 @@ func (p *pipe) howU() string {
 		return name
 	case "T":
 		return "T(" + p.a.howU() + ")"
+	}
+	if p.mp {
+		return "Int.Pipe(" + p.a.howU() + "," + p.b.howU() + ")"
 	}
 	return "P(" + p.a.howU() + "," + p.b.howU() + ")"
 }
@@ -675,6 +688,9 @@ func runUniversal(o *hx.Out, r *hx.Rng, n int) {
 			depth = 1 + r.Intn(3)
 		}
 		p, _ := genPipeU(r, depth, kind, in, st)
+		if p.kind == "P" && p.a.kind == "B" && p.a.vk == "i" && r.Chance(50) {
+			p.mp = true // root pipe from an Int base: through ZodIntegerTyped.Pipe
+		}
 		var input any = in
 		star := ""
 		// (the class of every check kind on a raw pointer payload is read from Gen/RawClass.lean, Check(fn) of the
